@@ -38,6 +38,10 @@ func runC12(r *oblig.Report) {
 	e5path.FreshMembership(c.P, r, "C07.8")
 	r.Rule("C07.9", "path-enumeration", "an extension's relations are adopted wholesale only after the base type itself was found to have none", 1)
 	e5path.LiveAdoption(c.P, r, "C07.9")
+	// an item that is passed over without an error (a "harmless" duplicate) is merged or not depending on which file
+	// came first: success would depend on the order of the files (shared with C07)
+	r.Rule("R5.3", "instance-table", "exactly one outcome per item on every path through every merger loop", 5)
+	e5path.MergerLoops(c.P, r, "R5.3")
 	r.Analysed["order_source_loops"] = len(a.Loops)
 	e3order.SelfTest(r)
 }
